@@ -28,10 +28,11 @@ pub fn check() -> Check {
     Check {
         property: "C04",
         level: "exploration",
-        rule: "structure-aware hostile artifacts: well-formed traffic produced by rpgp (messages over the builder's configuration space, certificates, locked and unlocked secret keys, detached signatures, cleartext documents) is damaged at a chosen layer - armor text, packet stream, inside the plaintext BEFORE encryption (re-encrypted with real rpgp under the session key the recipient holds), inside the compressed stream before compression - by bit flips, byte stores, truncation, range duplication/deletion/insertion and length-field edits; PKESK packets are built around attacker-chosen session-key plaintext of every length 0..40 x sampled (thorough: every) first octet for each public-key algorithm in the pool; every one-octet parameter field of SKESK, secret-key S2K, signature, one-pass, literal and compressed headers is swept over 0..255. Everything is delivered through hostile schedules (1 byte per read, BufReader capacity 1) and with transient/hard I/O faults to the processing entry points: parse, dearmor, decrypt with the matching key or password, decompress, drain, verify, unlock, re-serialize. Oracle: no panic, no seam-call livelock (step budget), no run longer than the 120 s watchdog. Non-trivial: the artifact was actually changed; distinct = (artifact shape, layer, mutation) hash.",
+        rule: "structure-aware hostile artifacts: well-formed traffic produced by rpgp (messages over the builder's configuration space, certificates, locked and unlocked secret keys, detached signatures, cleartext documents) is damaged at a chosen layer - armor text, packet stream, inside the plaintext BEFORE encryption (re-encrypted with real rpgp under the session key the recipient holds), inside the compressed stream before compression - by bit flips, byte stores, truncation, range duplication/deletion/insertion and length-field edits; PKESK packets are built around attacker-chosen session-key plaintext of every length 0..40 x sampled (thorough: every) first octet for each public-key algorithm in the pool; for ECDH recipients the byzantine peer does KDF and AES key wrap itself (ephemeral point = the curve's base point, so the shared secret is the recipient's public point) and chooses the PADDED plaintext: every padded length 8..56 x every value of the trailing padding octet x 3 fillers; every one-octet parameter field of SKESK, secret-key S2K, signature, one-pass, literal and compressed headers is swept over 0..255. Everything is delivered through hostile schedules (1 byte per read, BufReader capacity 1) and with transient/hard I/O faults to the processing entry points: parse, dearmor, decrypt with the matching key or password, decompress, drain, verify, unlock, re-serialize. Oracle: no panic, no seam-call livelock (step budget), no run longer than the 120 s watchdog. Non-trivial: the artifact was actually changed; distinct = (artifact shape, layer, mutation) hash.",
         families: vec![
             Family { name: "traffic", gen: gen_traffic, run: run_traffic },
             Family { name: "byz_pkesk", gen: gen_pkesk, run: run_pkesk },
+            Family { name: "byz_ecdh", gen: gen_ecdh, run: run_ecdh },
             Family { name: "byz_octets", gen: gen_octets, run: run_octets },
         ],
         assumptions: vec![
@@ -59,20 +60,20 @@ fn process(kind: &str, bytes: &Arc<Vec<u8>>, armored: bool, opener: &Opener, sch
     match kind {
         "msg" => {
             let (input, l) = mk();
-            let spec = ReadSpec { armor: armored, opener: opener.clone(), consumer, verifiers: verifiers.to_vec(), max: 1 << 22, streaming_v1: false, v1_limit: None, opts: 0 };
+            let spec = ReadSpec { armor: armored, opener: opener.clone(), consumer, verifiers: verifiers.to_vec(), max: 1 << 22, streaming_v1: false, v1_limit: None, opts: 4 };
             let _ = workload::read_message(input, &spec);
             note(&l);
             // non-standard containers the recipient opted into (GnuPG AEAD + v5 SKESK, legacy SED)
             if !matches!(opener, Opener::None) {
                 let (input, l) = mk();
-                let spec = ReadSpec { armor: armored, opener: opener.clone(), consumer, verifiers: verifiers.to_vec(), max: 1 << 22, streaming_v1: false, v1_limit: None, opts: 3 };
+                let spec = ReadSpec { armor: armored, opener: opener.clone(), consumer, verifiers: verifiers.to_vec(), max: 1 << 22, streaming_v1: false, v1_limit: None, opts: 7 };
                 let _ = workload::read_message(input, &spec);
                 note(&l);
             }
             // streaming SEIPDv1 mode releases unauthenticated data to the inner parsers
             if let Opener::SessionKey(_) = opener {
                 let (input, l) = mk();
-                let spec = ReadSpec { armor: armored, opener: opener.clone(), consumer, verifiers: verifiers.to_vec(), max: 1 << 22, streaming_v1: true, v1_limit: None, opts: 0 };
+                let spec = ReadSpec { armor: armored, opener: opener.clone(), consumer, verifiers: verifiers.to_vec(), max: 1 << 22, streaming_v1: true, v1_limit: None, opts: 4 };
                 let _ = workload::read_message(input, &spec);
                 note(&l);
             }
@@ -556,6 +557,149 @@ fn run_pkesk(plan: &Value, rec: &mut Rec) {
             Err(p) => rec.violation("panic", &norm_loc(&p.loc), format!("PKESK {} to {} around attacker-chosen session-key plaintext of length {len}, first octet {first}: {}", if v6 { "v6" } else { "v3" }, k.name, p.msg), vplan),
             Ok(Err(e)) if e.starts_with("encrypt refused") => rec.count("probe:encrypt-refused-this-plaintext"),
             Ok(_) => {}
+        }
+    }
+}
+
+// ------------------------------------------------------------------ ECDH: attacker-chosen padded plaintext
+
+const ECDH_KEYS: [&str; 4] = ["edlegacy-v4", "p256-v4", "p384-v6", "p521-v4"];
+
+fn gen_ecdh(_ctx: &GenCtx) -> Vec<Value> {
+    let mut plans = Vec::new();
+    for key in ECDH_KEYS {
+        for padded_len in [8usize, 16, 24, 32, 40, 48, 56] {
+            for filler in ["pad", "material", "random"] {
+                plans.push(json!({"key": key, "padded_len": padded_len, "filler": filler}));
+            }
+        }
+    }
+    plans
+}
+
+/// base point of the recipient's curve as an ECDH MPI value, and the recipient's public point as the
+/// shared secret that results from it (X(d * G) = X(Q))
+fn ecdh_forgery_inputs(params: &[u8]) -> Option<(Vec<u8>, Vec<u8>, Vec<u8>, u8, u8)> {
+    let oid_len = *params.first()? as usize;
+    let oid = params.get(1..1 + oid_len)?.to_vec();
+    let rest = params.get(1 + oid_len..)?;
+    let bits = u16::from_be_bytes([*rest.first()?, *rest.get(1)?]) as usize;
+    let plen = bits.div_ceil(8);
+    let point = rest.get(2..2 + plen)?;
+    let kdf = rest.get(2 + plen..)?;
+    let (hash, sym) = (*kdf.get(2)?, *kdf.get(3)?);
+    let g: &str = match plen {
+        33 => "400900000000000000000000000000000000000000000000000000000000000000",
+        65 => "046B17D1F2E12C4247F8BCE6E563A440F277037D812DEB33A0F4A13945D898C2964FE342E2FE1A7F9B8EE7EB4A7C0F9E162BCE33576B315ECECBB6406837BF51F5",
+        97 => "04AA87CA22BE8B05378EB1C71EF320AD746E1D3B628BA79B9859F741E082542A385502F25DBF55296C3A545E3872760AB73617DE4A96262C6F5D9E98BF9292DC29F8F41DBD289A147CE9DA3113B5F0B8C00A60B1CE1D7E819D7A431D7C90EA0E5F",
+        133 => "0400C6858E06B70404E9CD9E3ECB662395B4429C648139053FB521F828AF606B4D3DBAA14B5E77EFE75928FE1DC127A2FFA8DE3348B3C1856A429BF97E7E31C2E5BD66011839296A789A3BC0045C8A5FB42C7D1BD998F54449579B446817AFBD17273E662C97EE72995EF42640C550B9013FAD0761353C7086A272C24088BE94769FD16650",
+        _ => return None,
+    };
+    let g = hex::decode(g).ok()?;
+    let shared = if plen == 33 { point[1..].to_vec() } else { point[1..1 + (plen - 1) / 2].to_vec() };
+    Some((oid, g, shared, hash, sym))
+}
+
+fn run_ecdh(plan: &Value, rec: &mut Rec) {
+    let k = keys::get(jstr(plan, "key"));
+    let sub = &k.public.public_subkeys[0];
+    let padded_len = jusize(plan, "padded_len");
+    let filler = jstr(plan, "filler");
+    let Some((oid, g, shared, hash, sym)) = sub.public_params().to_bytes().ok().and_then(|b| ecdh_forgery_inputs(&b)) else {
+        rec.count("skip:not-an-ecdh-subkey");
+        return;
+    };
+    let hash_alg = pgp::crypto::hash::HashAlgorithm::from(hash);
+    let sym_alg = pgp::crypto::sym::SymmetricKeyAlgorithm::from(sym);
+    let param = pgp::crypto::ecdh::build_ecdh_param(&oid, sym_alg, hash_alg, sub.fingerprint().as_bytes());
+    let Ok(kek) = pgp::crypto::ecdh::kdf(hash_alg, &shared, sym_alg.key_size(), &param) else {
+        rec.count("skip:kdf");
+        return;
+    };
+    let cfg = json!({"source":"bytes","enc":{"k":"v1","sym":"aes128"},"rng_key":1});
+    let (container, info) = workload::build_reference(&cfg, b"container", 1, false);
+    let (Ok(container), Some(session_key)) = (container, info.session_key.clone()) else {
+        rec.count("skip:container");
+        return;
+    };
+    let session_key: Vec<u8> = session_key.as_ref().to_vec();
+    // well-formed session key material: algorithm octet, key, checksum
+    let mut material = vec![7u8];
+    material.extend_from_slice(&session_key);
+    let sum: u16 = session_key.iter().fold(0u16, |a, b| a.wrapping_add(*b as u16));
+    material.extend_from_slice(&sum.to_be_bytes());
+    let forge = |padded: &[u8]| -> Option<Vec<u8>> {
+        let wrapped = pgp::crypto::aes_kw::wrap(&kek, padded).ok()?;
+        let mut body = vec![3u8];
+        body.extend_from_slice(sub.legacy_key_id().as_ref());
+        body.push(18);
+        let first = *g.first()?;
+        let bits = (g.len() - 1) * 8 + (8 - first.leading_zeros() as usize);
+        body.extend_from_slice(&(bits as u16).to_be_bytes());
+        body.extend_from_slice(&g);
+        body.push(wrapped.len() as u8);
+        body.extend_from_slice(&wrapped);
+        let mut stream = frame(1, &body, &LenForm::NewMinimal)?;
+        stream.extend_from_slice(&container);
+        Some(stream)
+    };
+    let open = |stream: &[u8]| -> Result<Vec<u8>, String> {
+        let m = Message::from_bytes(stream).map_err(|e| e.to_string())?;
+        let mut m = m.decrypt(&Password::from(k.password), &k.secret).map_err(|e| e.to_string())?;
+        let (data, end) = seams::drain(&mut m, &Consumer::ReadLoop(vec![64]), 1 << 16);
+        end.map_err(|e| e.to_string())?;
+        Ok(data)
+    };
+    // control (validates the stub): honest padding to 40 octets decrypts
+    if plan.get("only").is_none() {
+        let mut honest = material.clone();
+        let padn = 40 - honest.len();
+        honest.resize(40, padn as u8);
+        match forge(&honest).map(|s| guard(|| open(&s))) {
+            Some(Ok(Ok(d))) if d == b"container" => rec.count("probe:forged-ecdh-control-decrypts"),
+            Some(Err(p)) => rec.violation("panic", &norm_loc(&p.loc), format!("ECDH PKESK with honest padding: {}", p.msg), plan.clone()),
+            other => {
+                rec.count(&format!("harness:forged-ecdh-control-failed:{}", k.name));
+                if std::env::var("VERIF_DEBUG").is_ok() {
+                    eprintln!("ecdh control for {}: {:?}", k.name, other.map(|r| r.map_err(|p| p.msg)));
+                }
+                return;
+            }
+        }
+    }
+    let lasts: Vec<usize> = match plan.get("only") {
+        Some(o) => vec![jusize(o, "last")],
+        None => (0..256).collect(),
+    };
+    rec.sample(json!({"key": k.name, "padded_len": padded_len, "filler": filler, "last_octets": lasts.len()}));
+    for last in lasts {
+        let mut padded: Vec<u8> = match filler {
+            "pad" => vec![last as u8; padded_len],
+            "material" => {
+                let mut v = material.clone();
+                v.resize(padded_len.max(1), last as u8);
+                v.truncate(padded_len);
+                v
+            }
+            _ => Planner::new(last as u64 * 64 + padded_len as u64, "ecdhpad", 0).bytes(padded_len),
+        };
+        if let Some(l) = padded.last_mut() {
+            *l = last as u8;
+        }
+        let mut h = Fnv::default();
+        h.str(k.name);
+        h.str(filler);
+        h.u64(padded_len as u64);
+        h.u64(last as u64);
+        rec.eval(h.0, true);
+        rec.count("fault:F-byz:ecdh-chosen-padding");
+        let Some(stream) = forge(&padded) else { continue };
+        let mut vplan = plan.clone();
+        vplan["only"] = json!({"last": last});
+        match guard(|| open(&stream)) {
+            Err(p) => rec.violation("panic", &norm_loc(&p.loc), format!("ECDH PKESK to {} around attacker-chosen padded plaintext ({padded_len} octets, filler {filler}, trailing octet {last}): {}", k.name, p.msg), vplan),
+            Ok(Ok(_)) => rec.count("probe:forged-ecdh-decrypts"),
+            Ok(Err(_)) => {}
         }
     }
 }
